@@ -274,6 +274,8 @@ class C20(Prop):
             c["glob"] = True                                     # a pattern instead of a list of names
         elif rng.random() < 0.65:
             c["file_order"] = rng.choice(["rev", "rot"])         # the list of names is not in alphabetical order
+        if c["how"] == "concat" and rng.random() < 0.4:
+            c["concat_order"] = "dec"                            # later files hold smaller labels along the joined axis
         d0 = dd["dims"][0]
         if c["how"] == "stack":
             if rng.random() < 0.25:
@@ -584,7 +586,9 @@ class C20(Prop):
             for i, ds in enumerate(dss):
                 ax = ds.axes[d0]
                 if ax.values.dtype.kind in "if":
-                    ax[:] = ax.values + 100 * i
+                    # (the later files may hold the SMALLER labels: the pieces are joined in the order given, sort= is about
+                    #  the secondary axes)
+                    ax[:] = ax.values + 100 * ((len(dss) - 1 - i) if c.get("concat_order") == "dec" else i)
         # an explicit list of files is read in the order GIVEN, whatever the names: the files of a list are numbered so
         # that the list is not in alphabetical order (a glob pattern is expanded in sorted order, there the numbers ascend)
         ks = list(range(len(dss)))
